@@ -47,6 +47,7 @@ type StoppableSource struct {
 	handler    handler.EventHandler
 	predicates []predicate.Predicate
 
+	inf cache.Informer
 	reg kcache.ResourceEventHandlerRegistration
 }
 
@@ -62,9 +63,17 @@ func (s *StoppableSource) Start(ctx context.Context, q workqueue.TypedRateLimiti
 	if err != nil {
 		return errors.Wrapf(err, "cannot add event handler")
 	}
+	s.inf = i
 	s.reg = reg
 
 	return nil
+}
+
+// Lost returns true if the source was started, but the informer it registered
+// its event handler with has since been stopped - e.g. because the informer
+// was removed from the cache. A lost source no longer receives any events.
+func (s *StoppableSource) Lost() bool {
+	return s.reg != nil && s.inf != nil && s.inf.IsStopped()
 }
 
 // Stop removes the EventHandler from the source's Informer. The Informer will
